@@ -33,6 +33,11 @@ func (tc *TaskCompiler) CompileTask(t *task.Task, executionContext *ExecutionCon
 			continue
 		}
 
+		// a captured task output is data, not a template
+		if isTaskOutputVariable(k) {
+			continue
+		}
+
 		v, err := utils.RenderString(v.(string), vars.Map())
 		if err != nil {
 			return nil, err
